@@ -11,7 +11,7 @@ TB = ("Trusted: CPython semantics of the inherited builtins, typeshed signatures
 CHECKS = {
     "C06": dict(
         category="other",
-        technique="grammar stratification check + LALR(1) conflict-freeness + stack-effect abstract interpretation of DumpAST per production",
+        technique="grammar stratification check + LALR(1) conflict-freeness + terminal priority rule for keywords inside L(IDENT) + stack-effect abstract interpretation of DumpAST per production",
         text="Decides precedence/associativity as a property of cel.lark (stratification against CEL's level table, LALR(1) table "
              "built without conflicts with the options read from CELParser.__init__), the keyword-literal retyping table, the ignored "
              "terminals, and for every production and child shape the stack effect and rendering of DumpAST. Holds for all expressions "
@@ -22,7 +22,7 @@ CHECKS = {
 
 CHECKS["C01"] = dict(
     category="other",
-    technique="operator dispatch matrix + interval extraction of the range decorators + sign/magnitude abstract evaluation + exception-effect analysis + def-use dependence",
+    technique="operator dispatch matrix + path-based interval extraction of the range decorators/checkers + sign/magnitude abstract evaluation + IEEE class x sign evaluation of the zero-divisor branch + exception-effect analysis + def-use dependence",
     text="Decides the structural clauses: every int/uint arithmetic cell (direct and reflected) is under the class's range check whose accepted "
          "interval is exactly int64/uint64; division/remainder bodies truncate toward zero / take the dividend's sign for all sign combinations; "
          "every exception class those cells raise is converted by the interpreter's rule method and by result(); each numeric result depends on both operands. "
@@ -60,7 +60,7 @@ CHECKS["C13"] = dict(
 
 CHECKS["C05"] = dict(
     category="other",
-    technique="shared-state channel analysis: inventory of persistent cells on the API call graph; cache-key completeness, clone-depth, freshness/dominance and read-only-parameter rules",
+    technique="shared-state channel analysis: inventory of persistent cells on the API call graph; cache-key completeness (guards and process-wide memo tables), ChainMap first-layer writes, clone-depth, reaching-value freshness and read-only-parameter rules",
     text="Sufficient condition: enumerates every storage cell that outlives an API call and is written on the call graph of Environment()/compile/program/evaluate, "
          "and shows for each that it cannot carry information from one operation to a later one (complete cache key, per-call namespace, deep clone of the "
          "runner's activation, bindings loaded only into objects created by the same call, caller's bindings never stored into). No channel implies no history dependence "
@@ -77,7 +77,7 @@ CHECKS["C16"] = dict(
     note=TB + " Third-party objects shared between threads (the lark parser) are assumed thread-safe for parse().")
 CHECKS["C08"] = dict(
     category="other",
-    technique="operator chain agreement through grammar/dispatch tables; decorator and delegation checks on the comparison cells; De Morgan duality of the container folds",
+    technique="operator chain agreement through grammar/dispatch tables; decorator and delegation checks on the comparison cells; De Morgan duality of the container folds; size rule for shortcut return paths (path enumeration)",
     text="Decides the plumbing of equality and ordering: every relation token reaches the Python comparison of the same name with operands in order in both engines; "
          "numeric comparison overrides are type-matched and delegate to the builtin of the same name; every ordered class resolves each comparison to a builtin slot or "
          "such a delegate; List/Map != is the exact dual of == over the same element pairing. The order laws themselves are CPython's.",
@@ -95,7 +95,7 @@ CHECKS["C09"] = dict(
     note=TB)
 CHECKS["C10"] = dict(
     category="other",
-    technique="must-pass-through analysis of the constructor ladders against the range decorators (interval extraction), domination of DurationType construction by its range test",
+    technique="must-pass-through analysis of the constructor ladders against the range decorators (interval extraction), path enumeration with symbolic environment: every constructing path passes a range test inside the target interval",
     text="Every arm of IntType/UintType.__new__ that builds from a foreign kind selects a converter wrapped by the class's range decorator (or is a recorded "
          "exemption); manual guards are accepted only if the interval they accept lies inside the target range; doubles truncate toward zero; hex arms use radix 16 "
          "with the right prefix length; DurationType construction is dominated by the +-315,576,000,000 s test; text conversions use UTF-8. Round-trip identities are not decided.",
@@ -114,7 +114,7 @@ CHECKS["C07"] = dict(
 
 CHECKS["C12"] = dict(
     category="other",
-    technique="finite decision table of Referent.value by abstract interpretation; idiom classification of the tie-break; dataflow/shape rules for macro activations",
+    technique="finite decision table of Referent.value by abstract interpretation; pool/selection analysis of the tie-break; who-may-read rule on the raw value field; dataflow/shape rules for macro activations",
     text="Narrow claim: decides the preference container > value > annotation inside a Referent (complete table), that among equally long matches the innermost scope wins, "
          "that bindings are loaded in front of declarations, and that both engines evaluate a macro body under the current activation plus exactly the iteration variable(s). "
          "The search over package prefixes and competing dotted names is a loop over run-time name sets and is NOT decided.",
@@ -123,7 +123,7 @@ CHECKS["C12"] = dict(
 
 CHECKS["C14"] = dict(
     category="other",
-    technique="sibling cross-check of function_eval/method_eval; classification of every construction of the function lookup chain; provenance rule on generated callee text; exception-effect analysis with a host-function model",
+    technique="sibling cross-check of function_eval/method_eval; classification of every construction of the function lookup chain; provenance rule on generated callee text; who-may-write rule on base_functions (also through ChainMap first layers); exception-effect analysis with a host-function model (subclasses included) and origin sites",
     text="Decides necessary conditions: the two call forms are handled identically (handlers, messages, lookup, error-argument checks, receiver as first argument); every "
          "construction of an activation's function chain looks supplied functions up before base_functions, which is never written; unbound names become error values; "
          "ValueError/TypeError of host functions are converted; the transpiler must not re-spell the callable. 'Once per call site' and argument values are not decided.",
@@ -132,7 +132,7 @@ CHECKS["C14"] = dict(
 
 CHECKS["C15"] = dict(
     category="other",
-    technique="subclass-aware isinstance-ladder ordering; finite decision table of json_to_cel over the JSON kinds by abstract interpretation; recursion and coverage rules for the encoder",
+    technique="subclass-aware isinstance-ladder ordering; finite decision table of json_to_cel over the JSON kinds by abstract interpretation; per-class path rule on the encoder (which returning path a value of each class takes, and what it returns)",
     text="Decides the shape clauses: no isinstance arm is shadowed by an earlier superclass arm (booleans never become integers); the kind table of json_to_cel equals the "
          "reference for all seven JSON kinds, with recursive conversion of elements, keys and values; the encoder maps BoolType to bool, recurses, and covers timestamp, "
          "duration and bytes; no type-dispatching conversion is memoized by equality. Round-trip document equality and navigation are not decided.",
@@ -141,7 +141,7 @@ CHECKS["C15"] = dict(
 
 CHECKS["C17"] = dict(
     category="other",
-    technique="typestate rule on the module global C7N (writers, all-paths reset, lexical scoping of evaluate), registry agreement, idiom classification of the small helpers",
+    technique="typestate rule on the module global C7N (writers, all-paths reset, lexical scoping of evaluate), registry agreement, interprocedural typestate summary; path rule for the set helpers; idiom classification of the other small helpers",
     text="Decides the context clause completely (the filter context is installed only by the context manager, cleared on every path of __exit__, exceptions propagate, "
          "and every evaluation of the C7N runner happens inside the with-block) and table/registry agreement; for the set/CIDR/tag/ARN helpers it classifies each body "
          "against the recognised idioms of its definition (a different set operator, swapped arguments, truthiness used as presence are reported). The library maths "
@@ -151,7 +151,7 @@ CHECKS["C17"] = dict(
 
 CHECKS["C20"] = dict(
     category="other",
-    technique="finite exit-status decision tables by kind-level abstract interpretation of main()'s null-input arm and process_json_doc(); fold, dominance and framing rules on the NDJSON loop",
+    technique="finite exit-status decision tables by kind-level abstract interpretation of main()'s null-input arm and process_json_doc(); fold, dominance and framing rules on the NDJSON loop; absence-vs-emptiness rule for --arg values",
     text="Extracts the complete exit-status tables over {true,false,other value,evaluation error} x {-b, no -b} plus malformed JSON and a syntax error and compares them with the "
          "reference; checks that the NDJSON status is a max-fold from 0, that each document alone is bound before evaluate(), that documents are framed by line feeds only, "
          "and that output goes through CELJSONEncoder unless --format. The printed text for arbitrary values is not decided.",
@@ -160,7 +160,7 @@ CHECKS["C20"] = dict(
 
 CHECKS["C11"] = dict(
     category="other",
-    technique="must-pass-through rule for the zoned instant; finite-range evaluation of accessor expressions against CEL's conventions; symbolic linear-form evaluation of the fixed-offset parser; table agreement for duration units",
+    technique="must-pass-through rule for the zoned instant and no-unzoned-field rule; finite-range evaluation of accessor expressions against CEL's conventions; symbolic linear-form evaluation of the fixed-offset parser; table agreement for duration units",
     text="Decides the accessor conventions and wiring: every timestamp accessor reads its field from self.astimezone(tz_parse(tz_name)) and the integer expression it returns "
          "agrees with CEL's convention over the whole range of that field; tz_offset_parse builds +-(hh*3600+mm*60) s in all 12 cases of sign x {hh=0,>0} x {mm=0,>0}; the "
          "duration unit table is CEL's and the parser multiplies the number group by the scale of the unit group; duration getters use the right factor. Arithmetic "
@@ -180,7 +180,7 @@ CHECKS["C18"] = dict(
 
 CHECKS["C19"] = dict(
     category="other",
-    technique="table comparison against the reference operator table; parsing of every table entry and template with cel.lark; writer/reader unit and name agreement; quote-taint and serialiser rules",
+    technique="table comparison against the reference operator table; parsing of every table entry and template with cel.lark; writer/reader unit and name agreement; quote-taint, serialiser, escape-pair (constant evaluation) and split-limit rules",
     text="Decides the table and quoting clauses: the op table equals the reference (relation tokens, alias groups, call shapes); every per-resource table entry is syntactically valid CEL; "
          "the duration units written are the reader's units and the zero path is non-empty; policy-derived values between quotes come from q(), which escapes backslash, delimiter and "
          "line feed; every function name in emitted text is bound in c7nlib.FUNCTIONS/base_functions; no foreign serialiser is applied to policy values. "
